@@ -2,4 +2,6 @@
 let table : (string * (Model.n list -> Model.n list)) list = [
   ("inflights", Model.run_inflights);
   ("quorum", Model.run_quorum);
+  ("memstorage", Model.run_memstorage);
+  ("node", Model.run_node);
 ]
